@@ -46,6 +46,11 @@ struct ConnApp {
     reader: bool,
     /// identity of the connection this state belongs to (handles are reused)
     uid: Option<i64>,
+    /// sizes used round-robin (empty: `dgram_size`), drop flag, skip datagrams refused for good
+    dgram_sizes: Vec<u64>,
+    dgram_drop: bool,
+    dgram_skip: bool,
+    dgram_base: u64,
 }
 
 #[derive(Default)]
@@ -53,6 +58,8 @@ pub struct Apps {
     conns: BTreeMap<(usize, usize), ConnApp>,
     /// attach passive readers to all connections
     pub readers: bool,
+    /// readers leave received datagrams in the connection's buffer ("dgram_read":false)
+    pub no_dgram_read: bool,
 }
 
 impl Apps {
@@ -66,6 +73,16 @@ impl Apps {
         a.reader = true;
         a.dgrams_to_send = s["dgrams"].as_u64().unwrap_or(0);
         a.dgram_size = s["dgram_size"].as_u64().unwrap_or(100);
+        a.dgram_sizes = s["dgram_sizes"]
+            .as_array()
+            .map(|l| l.iter().filter_map(|x| x.as_u64()).collect())
+            .unwrap_or_default();
+        a.dgram_drop = s["dgram_drop"].as_bool().unwrap_or(false);
+        a.dgram_skip = s["dgram_skip"].as_bool().unwrap_or(false);
+        a.dgram_base = s["dgram_base"].as_u64().unwrap_or(0);
+        if s["dgram_read"].as_bool() == Some(false) {
+            self.no_dgram_read = true;
+        }
         if let Some(list) = s["streams"].as_array() {
             for st in list {
                 a.out.push(OutStream {
@@ -191,7 +208,7 @@ impl Apps {
                     }
                 }
             }
-            "DatagramReceived" if reader => {
+            "DatagramReceived" if reader && !self.no_dgram_read => {
                 loop {
                     let r = w.op(n, c, &json!({"op":"recv_dgram"}));
                     if r["res"]["k"] != "Some" {
@@ -297,13 +314,19 @@ impl Apps {
             if a.dgrams_sent >= a.dgrams_to_send {
                 break;
             }
-            let did = a.dgrams_sent + 1;
+            let did = a.dgram_base + a.dgrams_sent + 1;
+            let size = if a.dgram_sizes.is_empty() {
+                a.dgram_size
+            } else {
+                a.dgram_sizes[a.dgrams_sent as usize % a.dgram_sizes.len()]
+            };
+            let skip = a.dgram_skip;
             let r = w.op(
                 n,
                 c,
-                &json!({"op":"send_dgram","len":a.dgram_size,"drop":false,"did":did}),
+                &json!({"op":"send_dgram","len":size,"drop":a.dgram_drop,"did":did}),
             );
-            if r["res"]["k"] == "Ok" {
+            if r["res"]["k"] == "Ok" || (skip && r["res"]["k"] != "Blocked") {
                 self.conns.get_mut(&(n, c)).unwrap().dgrams_sent += 1;
             } else {
                 break;
